@@ -124,6 +124,22 @@ var weeks = ev.Register(&ev.P[weekCase]{
 		if g := ymd(nx.GetFirstDay()); g != fmtJ(fj+7*c.N) {
 			return fmt.Errorf("%s: Next(%d,false).GetFirstDay = %s, model says %s", desc, c.N, g, fmtJ(fj+7*c.N))
 		}
+		// the stepped week is a week like any other: its indices are those of its own date (the source week has
+		// answered its own index questions by now), also one and two years away
+		for _, n := range []int{c.N, 52, -52, 53, 104} {
+			jj := c.J + 7*n
+			if jj < ref.JDNMin+40 || jj > ref.JDNMax-40 {
+				continue
+			}
+			x := w.Next(n, false)
+			yy, mm, dd := ref.FromJDN(jj)
+			if g, want := x.GetIndex(), indexInMonth(yy, mm, dd, c.Start); g != want {
+				return fmt.Errorf("%s: Next(%d,false).GetIndex = %d, %d week starts passed in %04d-%02d", desc, n, g, want, yy, mm)
+			}
+			if g, want := x.GetIndexInYear(), indexInYear(yy, mm, dd, c.Start); g != want {
+				return fmt.Errorf("%s: Next(%d,false).GetIndexInYear = %d, model says %d", desc, n, g, want)
+			}
+		}
 		bk := nx.Next(-c.N, false)
 		if bk.GetYear() != y || bk.GetMonth() != m || bk.GetDay() != d {
 			return fmt.Errorf("%s: Next(%d,false).Next(%d,false) = %d-%d-%d", desc, c.N, -c.N, bk.GetYear(), bk.GetMonth(), bk.GetDay())
@@ -239,6 +255,9 @@ var months = ev.Register(&ev.P[monthCase]{
 		if strings.Join(days, ",") != strings.Join(want, ",") {
 			return fmt.Errorf("SolarMonth %d-%d GetDays = %v, model says %v", y, m, days, want)
 		}
+		// one month object is asked for its weeks under other first weekdays before (and after) the one compared
+		_ = sm.GetWeeks((c.Start + 3) % 7)
+		_ = sm.GetWeeks((c.Start + 6) % 7)
 		var gotWeeks []string
 		for e := sm.GetWeeks(c.Start).Front(); e != nil; e = e.Next() {
 			w, ok := e.Value.(*calendar.SolarWeek)
